@@ -5,6 +5,8 @@ import (
 	"go/token"
 	"go/types"
 
+	"golang.org/x/tools/go/cfg"
+
 	"rscheck/cfgq"
 	"rscheck/core"
 	"rscheck/lin"
@@ -19,19 +21,29 @@ const (
 	Unknown                 // every unguarded path crosses a test on the tracked values that is not understood
 )
 
+// EdgeTest classifies a fact met on the edge that leaves block b.
+type EdgeTest func(b *cfg.Block, f cfgq.Fact) bool
+
 // Guard decides whether target is reachable only through edges that establish
 // a fact accepted by want. A VIOLATION must be provable: the witness path may
 // only cross tests that the rule understands (and that do not establish the
 // fact). If every unguarded path crosses a test accepted by opaque - one that
 // involves the tracked values in a form the rule cannot interpret - the
 // answer is Unknown.
-func Guard(g *cfgq.Graph, target cfgq.Point, want, opaque func(cfgq.Fact) bool) (Verdict, []string) {
+func Guard(g *cfgq.Graph, target cfgq.Point, want func(cfgq.Fact) bool, opaque EdgeTest) (Verdict, []string) {
 	if ok, _ := OnlyVia(g, target, want); ok {
 		return Holds, nil
 	}
 	tn := target.Node()
 	w := g.Path(cfgq.Query{From: g.Entry(), Target: func(n ast.Node) bool { return n == tn },
-		AvoidEdge: Establishes(g, func(f cfgq.Fact) bool { return want(f) || opaque(f) })})
+		AvoidEdge: func(b *cfg.Block, s int) bool {
+			for _, f := range EdgeFacts(g, b, s) {
+				if want(f) || opaque != nil && opaque(b, f) {
+					return true
+				}
+			}
+			return false
+		}})
 	if w != nil {
 		return Violated, w
 	}
@@ -40,10 +52,12 @@ func Guard(g *cfgq.Graph, target cfgq.Point, want, opaque func(cfgq.Fact) bool) 
 
 // Opaque builds the opacity test of a guard: a fact is opaque when the rule
 // does not understand it and it involves one of the tracked objects - directly,
-// through a local one of whose definitions mentions a tracked object
-// (`err := check(b)`, `valid := b[n] == x`), or because it tests a boolean /
-// error local that is assigned in several places (a flag).
-func Opaque(g *cfgq.Graph, understood func(cfgq.Fact) bool, objs ...types.Object) func(cfgq.Fact) bool {
+// or through a local whose definition reaching the test is computed from a
+// tracked object by code the rule cannot see into (`err := d.check(b)`,
+// a function value), or because it tests a boolean local that is assigned in
+// several places (a flag). Results of library calls (`_, err := io.ReadFull(r, b)`)
+// say nothing about the content the rule tracks and are not opaque.
+func Opaque(g *cfgq.Graph, understood func(cfgq.Fact) bool, objs ...types.Object) EdgeTest {
 	info := g.Info
 	direct := func(n ast.Node) bool {
 		for _, o := range objs {
@@ -53,7 +67,37 @@ func Opaque(g *cfgq.Graph, understood func(cfgq.Fact) bool, objs ...types.Object
 		}
 		return false
 	}
-	return func(f cfgq.Fact) bool {
+	// derived: rhs computes something from a tracked object through module code
+	derived := func(rhs ast.Expr) bool {
+		if !direct(rhs) {
+			return false
+		}
+		lib := true
+		core.InspectAll(rhs, func(m ast.Node) bool {
+			if _, isLit := m.(*ast.FuncLit); isLit {
+				lib = false // a closure over the tracked value: what it tests is not visible here
+			}
+			call, ok := m.(*ast.CallExpr)
+			if !ok {
+				return true
+			}
+			if tv, isConv := info.Types[call.Fun]; isConv && tv.IsType() {
+				return true
+			}
+			switch o := core.Callee(info, call).(type) {
+			case *types.Builtin:
+			case *types.Func:
+				if o.Pkg() != nil && (o.Pkg().Path() == core.Module || len(o.Pkg().Path()) > len(core.Module) && o.Pkg().Path()[:len(core.Module)+1] == core.Module+"/") {
+					lib = false
+				}
+			default:
+				lib = false
+			}
+			return true
+		})
+		return !lib
+	}
+	return func(b *cfg.Block, f cfgq.Fact) bool {
 		if understood != nil && understood(f) {
 			return false
 		}
@@ -70,39 +114,58 @@ func Opaque(g *cfgq.Graph, understood func(cfgq.Fact) bool, objs ...types.Object
 			if !isVar || v.IsField() || v.Pkg() == nil || v.Parent() == v.Pkg().Scope() {
 				return true
 			}
-			defs, n := 0, 0
-			core.InspectAll(g.Body, func(x ast.Node) bool {
-				as, ok := x.(*ast.AssignStmt)
-				if !ok {
-					return true
+			defs := reachingDefs(g, v, b)
+			for _, rhs := range defs {
+				if derived(rhs) {
+					hit = true
 				}
-				for i, l := range as.Lhs {
-					if !IsObj(info, v)(l) {
-						continue
-					}
-					n++
-					rhs := as.Rhs[0]
-					if len(as.Lhs) == len(as.Rhs) {
-						rhs = as.Rhs[i]
-					}
-					if direct(rhs) {
-						defs++
-					}
-				}
-				return true
-			})
-			if defs > 0 {
-				hit = true // defined from a tracked value
 			}
-			if n > 1 {
-				if b, ok := v.Type().Underlying().(*types.Basic); ok && b.Info()&types.IsBoolean != 0 {
-					hit = true // a flag
-				}
+			if bt, ok := v.Type().Underlying().(*types.Basic); ok && bt.Info()&types.IsBoolean != 0 && len(defs) > 1 {
+				hit = true // a flag
 			}
 			return !hit
 		})
 		return hit
 	}
+}
+
+// reachingDefs lists the right-hand sides of the assignments to v whose value
+// can reach the condition that ends block b.
+func reachingDefs(g *cfgq.Graph, v types.Object, b *cfg.Block) []ast.Expr {
+	if len(b.Nodes) == 0 {
+		return nil
+	}
+	info := g.Info
+	cond := b.Nodes[len(b.Nodes)-1]
+	isDef := func(n ast.Node) bool {
+		as, ok := n.(*ast.AssignStmt)
+		if !ok {
+			return false
+		}
+		for _, l := range as.Lhs {
+			if IsObj(info, v)(l) {
+				return true
+			}
+		}
+		return false
+	}
+	var out []ast.Expr
+	for _, p := range g.Points(isDef) {
+		if g.Path(cfgq.Query{From: p, After: true, Avoid: isDef, Target: func(m ast.Node) bool { return m == cond }}) == nil {
+			continue
+		}
+		as := p.Node().(*ast.AssignStmt)
+		for i, l := range as.Lhs {
+			if IsObj(info, v)(l) {
+				if len(as.Lhs) == len(as.Rhs) {
+					out = append(out, as.Rhs[i])
+				} else {
+					out = append(out, as.Rhs[0])
+				}
+			}
+		}
+	}
+	return out
 }
 
 // LinIs reports that fact f says "x op k" over the integers for the linear
